@@ -161,7 +161,7 @@ def recurring_oracle(case: SchedCase, groups: list[Group]) -> list[str]:
                 st = g.state['jobs'].get(h)
                 if st and st[0] == 'running':
                     nxt = occurrences(case.tz, spec, g.now, g.now + 40 * 86400 * 10**9, anchor[h])
-                    if nxt and int(st[1]) != nxt[0]:
+                    if nxt and str(st[1]).lstrip('-').isdigit() and int(st[1]) != nxt[0]:
                         out.append(f'group {gi}: job {h} reports next run {st[1]} but the next occurrence of its trigger after '
                                    f'{g.now} is {nxt[0]} (zone {case.tz}, {prod_sx(spec)[:120]})')
                         return out
